@@ -186,6 +186,8 @@ class Scn:
 def build_dir(variant):
     repo = os.path.realpath(os.environ.get('VERIF_REPO', '/repo'))
     tag = '' if repo == '/repo' else '-' + hashlib.sha1(repo.encode()).hexdigest()[:8]
+    if os.environ.get('VERIF_BUILD_TAG'):
+        tag += '-' + os.environ['VERIF_BUILD_TAG']
     return os.path.join(VERIF, '.build', variant + tag)
 
 def simsquid_path(variant=None):
